@@ -1,8 +1,144 @@
-import BddVerif.Drive.Util
-/-! Driver for C03 — stub, to be written. -/
+import BddVerif.Drive.Tables
+import BddVerif.Model.Nested
+/-!
+Driver for C03: replays each observed case through the model (`Model/Nested.lean`) and evaluates the
+property's own predicate on the implementation's output, by brute force over truth tables:
+  * truth table of the observed result = projection (∃ = or, ∀ = and) over the quantified / triggered
+    variables of the outer connective applied pointwise to the operands' truth tables,
+  * no decision node of the result tests a quantified variable (support disjoint from the set),
+  * the result is canonical (`isCanon`),
+  * two orderings (with duplicates) of the same variable set give the identical array,
+  * deprecated aliases (`project`, `var_project`) give the identical array.
+-/
 namespace B.Drive.C03
 open B B.Drive
 
-def handle (key : String) (_ins _obs : List String) : Verdict := Verdict.bad ("key " ++ key)
+def maxTT : Nat := 12
+
+/-- project variable `k` out of a truth table over `n` variables with the connective `d` -/
+def projVar (n : Nat) (d : Bool → Bool → Bool) (t : Array Bool) (k : Nat) : Array Bool :=
+  let bit := 2 ^ (n - 1 - k)
+  (Array.range (2 ^ n)).map fun i =>
+    let i0 := if (i / bit) % 2 == 1 then i - bit else i
+    d (t.getD i0 false) (t.getD (i0 + bit) false)
+
+/-- the oracle: outer connective pointwise, then fold `d` over both values of every variable `k < n`
+    with `q k` -/
+def oracle (n : Nat) (L R : Arr) (c : Bool → Bool → Bool) (d : Bool → Bool → Bool) (q : Nat → Bool) : Array Bool :=
+  let tl := ttOf L n; let tr := ttOf R n
+  let o : Array Bool := (Array.range (2 ^ n)).map fun i => c (tl.getD i false) (tr.getD i false)
+  (List.range n).foldl (fun t k => if q k then projVar n d t k else t) o
+
+def firstFail (xs : List (Option String)) : Option String := xs.findSome? id
+
+/-- the predicate on one observed result -/
+def checkRes (n : Nat) (res : Arr) (want : Array Bool) (q : Nat → Bool) : Option String :=
+  firstFail [
+    if n > maxTT then none else if (ttOf res n).toList == want.toList then none else some "projection",
+    if (res.toList.drop 2).all (fun nd => !(q nd.var)) then none else some "support-not-disjoint",
+    if numVars res == n then none else some "num-vars",
+    if isCanon res then none else some "not-canonical"]
+
+def parseVars? (s : String) : Option (List Nat) :=
+  if s == "~" then some [] else (s.splitOn ",").mapM (·.toNat?)
+
+def sameSet (a b : List Nat) : Bool := a.all b.contains && b.all a.contains
+
+def supportVars (A : Arr) : List Nat := (A.toList.drop 2).map (·.var)
+
+def qTag (n : Nat) (q : Nat → Bool) : String :=
+  let k := ((List.range n).filter q).length
+  if n > 0 && k == n then "q-all" else if k == 0 then "q-none" else if k == 1 then "q-one" else "q-some"
+
+def tagsOf (kind : String) (n : Nat) (ops : List Arr) (q : Nat → Bool) : List String :=
+  [kind, s!"n{n}", qTag n q,
+   if ops.any (·.size ≤ 2) then "const-operand" else "nonconst",
+   if ops.all isCanon then "canon-operands" else "noncanon-operand"]
+
+/-- non-trivial: the result is not a constant, not an operand, and some quantified variable occurs
+    in an operand -/
+def nontriv (res : Option Arr) (ops : List Arr) (q : Nat → Bool) : Bool :=
+  match res with
+  | some A => A.size > 2 && !(ops.contains A) && ops.any (fun o => (supportVars o).any q)
+  | none => false
+
+def innerOf (name : String) : Op2 :=
+  if name == "or" then Gen.or_ else if name == "and" then Gen.and_ else op2OfTable name
+
+def showO : Option Arr → String
+  | some A => showArr A
+  | none => "panic"
+
+/-- common part of all kinds: `results` are the observed fields that must all be the projection -/
+def verdict (kind : String) (n : Nat) (L R : Arr) (c d : Bool → Bool → Bool) (q : Nat → Bool)
+    (models : List (Option Arr)) (obs : List String) : Verdict :=
+  let modelS := " ".intercalate (models.map showO)
+  let obsS := " ".intercalate obs
+  let expectPanic := models.all (·.isNone)
+  let want := if n > maxTT then #[] else oracle n L R c d q
+  let parsed := obs.map parseArr?
+  let fail :=
+    if expectPanic then (if obs.all (· == "panic") then none else some "outcome:expected-panic")
+    else firstFail ((parsed.zip obs).map (fun (p, o) => match p with
+        | some A => checkRes n A want q
+        | none => some ("outcome:" ++ o))
+      ++ [if obs.all (· == obs.headD "") then none else some "order-or-alias-dependent"])
+  { agree := modelS == obsS, model := modelS, fail,
+    nontrivial := nontriv (parsed.headD none) [L, R] q, tags := tagsOf kind n [L, R] q }
+
+def handle (key : String) (ins obs : List String) : Verdict :=
+  match key, ins with
+  | "C03.nested", [n, table, conn, l, r, mask, inner, iconn] =>
+    match n.toNat?, conn.toNat?, parseArr? l, parseArr? r, mask.toNat?, iconn.toNat? with
+    | some n, some c, some L, some R, some mask, some ic =>
+      let op := op2OfTable table
+      let iop := innerOf inner
+      if !consistent2 op c then Verdict.bad "inconsistent outer table (harness bug)" else
+      if !(consistent2 iop ic && (ic == 14 || ic == 8)) then Verdict.bad "inner table is not or/and (harness bug)" else
+      let trig : Nat → Bool := fun x => (mask >>> (x % 64)) % 2 == 1
+      let v := verdict "nested" n L R (conn2 c) (conn2 ic) trig [nestedApplyO L R trig op iop] obs
+      { v with tags := (if ic == 14 then "inner-or" else "inner-and") ::
+          (if inner == "or" || inner == "and" then "inner-builtin" else "inner-table") :: v.tags }
+    | _, _, _, _, _, _ => Verdict.bad "args"
+  | k, [n, table, conn, l, r, vs1, vs2] =>
+    if k != "C03.exq" && k != "C03.allq" then Verdict.bad ("key " ++ key) else
+    match n.toNat?, conn.toNat?, parseArr? l, parseArr? r, parseVars? vs1, parseVars? vs2 with
+    | some n, some c, some L, some R, some v1, some v2 =>
+      let op := op2OfTable table
+      if !consistent2 op c then Verdict.bad "inconsistent outer table (harness bug)" else
+      if !sameSet v1 v2 then Verdict.bad "lists are not the same set (harness bug)" else
+      let ex := k == "C03.exq"
+      let f := fun vs => if numVars L ≠ numVars R then none else
+        some (if ex then binaryOpWithExists L R op vs else binaryOpWithForAll L R op vs)
+      verdict (if ex then "exq" else "allq") n L R (conn2 c) (if ex then (· || ·) else (· && ·))
+        (trigOfList v1) [f v1, f v2] obs
+    | _, _, _, _, _, _ => Verdict.bad "args"
+  | "C03.exists", [l, vs1, vs2] =>
+    match parseArr? l, parseVars? vs1, parseVars? vs2 with
+    | some L, some v1, some v2 =>
+      if !sameSet v1 v2 then Verdict.bad "lists are not the same set (harness bug)" else
+      verdict "exists" (numVars L) L L (· && ·) (· || ·) (trigOfList v1)
+        [some (bddExists L v1), some (bddExists L v2), some (bddExists L v1)] obs
+    | _, _, _ => Verdict.bad "args"
+  | "C03.forall", [l, vs1, vs2] =>
+    match parseArr? l, parseVars? vs1, parseVars? vs2 with
+    | some L, some v1, some v2 =>
+      if !sameSet v1 v2 then Verdict.bad "lists are not the same set (harness bug)" else
+      verdict "forall" (numVars L) L L (· && ·) (· && ·) (trigOfList v1)
+        [some (bddForAll L v1), some (bddForAll L v2)] obs
+    | _, _, _ => Verdict.bad "args"
+  | "C03.varex", [l, x] =>
+    match parseArr? l, x.toNat? with
+    | some L, some x =>
+      let m := if x < numVars L then some (varExists L x) else none
+      verdict "varex" (numVars L) L L (· && ·) (· || ·) (· == x) [m, m] obs
+    | _, _ => Verdict.bad "args"
+  | "C03.varall", [l, x] =>
+    match parseArr? l, x.toNat? with
+    | some L, some x =>
+      let m := if x < numVars L then some (varForAll L x) else none
+      verdict "varall" (numVars L) L L (· && ·) (· && ·) (· == x) [m] obs
+    | _, _ => Verdict.bad "args"
+  | _, _ => Verdict.bad ("key " ++ key)
 
 end B.Drive.C03
